@@ -872,6 +872,45 @@ static void cmpcost_eval(uint64_t idx, void *ctx) {
     }
 }
 
+/* ---- section afterfail: a valid document after many refused ones ----
+ * Whether a text is valid JSON does not depend on how many malformed texts the process has been handed before: R refused
+ * parses of a truncated nested document (R up to 2000, nesting 1..40) are followed by a parse of "[1]", of a document the
+ * library serialised itself, and of a 900-level array (added after a seeded change that moved the parser's nesting counter to
+ * file scope, where every refused document left the containers it had open) */
+static uint64_t afterfail_total(void) { return 6 * 4; }
+static void afterfail_eval(uint64_t idx, void *ctx) {
+    (void)ctx;
+    BEE_ITEM(idx);
+    static const unsigned REP[6] = {1, 30, 250, 300, 1000, 2000};
+    static const unsigned NEST[4] = {1, 4, 10, 40};
+    unsigned reps = REP[idx % 6], nest = NEST[idx / 6];
+    char bad[128];
+    size_t bn = 0;
+    for (unsigned i = 0; i < nest; ++i) bad[bn++] = (i & 1) ? '{' : '[', bn += (i & 1) ? (size_t)snprintf(bad + bn, sizeof(bad) - bn, "\"k\":") : 0;
+    V_COUNT("evaluations", 1);
+    V_COUNT("nontrivial", 1);
+    for (unsigned r = 0; r < reps; ++r) {
+        struct aws_json_value *v = aws_json_value_new_from_string(aws_default_allocator(), aws_byte_cursor_from_array(bad, bn));
+        if (v) {
+            bee_fail("accepts-truncated", "truncated document \"%.*s\" accepted", (int)bn, bad);
+            aws_json_value_destroy(v);
+            return;
+        }
+    }
+    static char deep[2000];
+    memset(deep, '[', 900);
+    deep[900] = '7';
+    memset(deep + 901, ']', 900);
+    const char *good[3] = {"[1]", "{\"a\":[true,{\"b\":null}],\"c\":\"d\"}", deep};
+    size_t glen[3] = {3, strlen(good[1]), 1801};
+    for (int g = 0; g < 3; ++g) {
+        struct aws_json_value *v = aws_json_value_new_from_string(aws_default_allocator(), aws_byte_cursor_from_array(good[g], glen[g]));
+        BEE_CHECK(v != NULL, "valid-document-refused-after-failures", "after %u refused parses of a document truncated at nesting level %u the valid document %s is refused", reps, nest,
+                  g == 2 ? "[[[...900 levels...7...]]]" : good[g]);
+        if (v) aws_json_value_destroy(v);
+    }
+}
+
 int main(int argc, char **argv) {
     v_init(argc, argv);
     v_max_samples = 16;
@@ -890,6 +929,7 @@ int main(int argc, char **argv) {
     bee_register("longstr", longstr_total, longstr_eval, 30);
     bee_register("wide", wide_total, wide_eval, 60);
     bee_register("deep", deep_total, deep_eval, 60);
+    bee_register("afterfail", afterfail_total, afterfail_eval, 30);
     bee_register("cmpcost", cmpcost_total, cmpcost_eval, 120);
     return bee_main(argc, argv);
 }
